@@ -257,6 +257,149 @@ def _splice(f, bid, h, hname):
     # the call becomes a jump into the copy
     b["inlined_call"] = t
     b["term"] = {"k": "goto", "target": e_id, "line": t.get("line"), "exp": None, "inl_call": hname}
+    if t.get("target") is not None:
+        try:
+            _thread_result(f, t, range(e_id, len(f["blocks"])), ret_map.get(0, loff), hname)
+        except Exception:
+            pass  # threading is a precision improvement only
+
+
+def _succs(t):
+    k = t["k"]
+    if k == "goto":
+        return [t["target"]]
+    if k == "switch":
+        return [bb for (_, bb) in t["targets"]] + [t["otherwise"]]
+    if k in ("drop", "assert"):
+        return [t["target"]]
+    if k == "call" and t.get("target") is not None:
+        return [t["target"]]
+    return []
+
+
+def _retarget(t, mapping):
+    t = dict(t)
+    k = t["k"]
+    if k == "goto" or k in ("drop", "assert"):
+        t["target"] = mapping.get(t["target"], t["target"])
+    elif k == "switch":
+        t["targets"] = [[v, mapping.get(bb, bb)] for (v, bb) in t["targets"]]
+        t["otherwise"] = mapping.get(t["otherwise"], t["otherwise"])
+    elif k == "call" and t.get("target") is not None:
+        t["target"] = mapping.get(t["target"], t["target"])
+    return t
+
+
+OKV = ("Ok", "Some")
+ERRV = ("Err", "None")
+
+
+def _thread_result(f, call, region, retloc, hname):
+    """Jump threading for `helper()?` / `match helper() {..}`: the caller re-dispatches on the discriminant of the helper's result right
+    after the call. Clone the helper's tail (from each return-value assignment of known variant to the caller's dispatch) once per
+    variant and send the clone straight to the matching arm, so that paths through the helper's Err exits cannot reach the caller's
+    Ok continuation in the CFG (and vice versa)."""
+    blocks = f["blocks"]
+    region = set(region)
+    T = call["target"]
+    # locate the dispatch: T: y = Try::branch(move ret) -> T2 ; T2: d = discriminant(y); switchInt(d)   |   T: d = discriminant(ret); switchInt(d)
+    disp = None
+    tb = blocks[T]
+    tt = tb["term"]
+    if tt["k"] == "call" and tt.get("name") == "branch" and tt.get("trait") == "std::ops::Try" and tt.get("target") is not None and tt["args"]:
+        a = tt["args"][0]
+        pl = a.get("move") or a.get("copy")
+        if pl and not pl["proj"] and pl["local"] == retloc and not any(st.get("place", {}).get("local") == retloc for st in tb["stmts"]):
+            t2 = blocks[tt["target"]]
+            if t2["term"]["k"] == "switch" and t2["stmts"] and "discriminant" in t2["stmts"][-1].get("rv", {}) and not t2["stmts"][-1]["rv"]["discriminant"]["proj"] \
+                    and t2["stmts"][-1]["rv"]["discriminant"]["local"] == tt["dest"]["local"]:
+                disp = ("branch", [T, t2["id"]], t2["id"])
+    elif tt["k"] == "switch" and tb["stmts"] and "discriminant" in tb["stmts"][-1].get("rv", {}) and not tb["stmts"][-1]["rv"]["discriminant"]["proj"] \
+            and tb["stmts"][-1]["rv"]["discriminant"]["local"] == retloc:
+        disp = ("direct", [T], T)
+    if disp is None:
+        return
+    kind, dblocks, sw_id = disp
+    sw = blocks[sw_id]["term"]
+    retty = f["locals"][retloc]["ty"]
+    is_result = retty.startswith("std::result::Result<")
+    is_option = retty.startswith("std::option::Option<")
+    if not (is_result or is_option):
+        return
+    # discriminant value -> arm; for `branch`: ControlFlow Continue=0 / Break=1; direct: Result Ok=0 Err=1, Option None=0 Some=1
+    def arm_for(ok):
+        if kind == "branch":
+            want = 0 if ok else 1
+        elif is_result:
+            want = 0 if ok else 1
+        else:
+            want = 1 if ok else 0
+        for (v, bb) in sw["targets"]:
+            if v == want:
+                return bb
+        return sw["otherwise"]
+    # exit sites in the region: where retloc receives its value
+    sites = []  # (block id, 'ok'|'err'|None)
+    for bid in region:
+        bl = blocks[bid]
+        if bl["cleanup"]:
+            continue
+        var = "none"
+        for st in bl["stmts"]:
+            if st["k"] == "assign" and not st["place"]["proj"] and st["place"]["local"] == retloc:
+                rv = st["rv"]
+                a = rv.get("aggregate") if isinstance(rv, dict) else None
+                if a and a.get("kind") == "adt" and a.get("variant") in OKV + ERRV:
+                    var = "ok" if a["variant"] in OKV else "err"
+                else:
+                    var = None
+        tm = bl["term"]
+        if tm["k"] == "call" and not tm["dest"]["proj"] and tm["dest"]["local"] == retloc:
+            var = "err" if (tm.get("callee") or "").endswith("FromResidual::from_residual") else None
+        if var != "none":
+            sites.append((bid, var))
+    if not sites:
+        return
+    # sites of unknown variant (e.g. a tail `x.map_err(..)`) stay on the unthreaded dispatch, which over-approximates them soundly
+    # tail = blocks of the region reachable from the successors of exit-site blocks (until the jump to T), plus the dispatch blocks
+    for variant in ("ok", "err"):
+        starts = [bid for (bid, v) in sites if v == variant]
+        if not starts:
+            continue
+        tail = set()
+        stack = []
+        for bid in starts:
+            stack.extend(x for x in _succs(blocks[bid]["term"]))
+        while stack:
+            x = stack.pop()
+            if x in tail:
+                continue
+            if x in region or x in dblocks:
+                tail.add(x)
+                if x != sw_id:
+                    stack.extend(_succs(blocks[x]["term"]))
+        if sw_id not in tail:
+            continue
+        if any(x in tail for x in starts):
+            continue  # an exit site inside another's tail: do not thread
+        mapping = {}
+        for x in sorted(tail):
+            mapping[x] = len(blocks) + len(mapping)
+        arm = arm_for(variant == "ok")
+        for x in sorted(tail):
+            ob = blocks[x]
+            nb = copy.deepcopy(ob)
+            nb["id"] = mapping[x]
+            nb["origin"] = ob.get("origin") or hname
+            nb["orig_bb"] = ob.get("orig_bb") or [f.get("_name", "?"), x]
+            nb["threaded"] = variant
+            if x == sw_id:
+                nb["term"] = {"k": "goto", "target": arm, "line": ob["term"].get("line"), "exp": None, "threaded": variant}
+            else:
+                nb["term"] = _retarget(ob["term"], mapping)
+            blocks.append(nb)
+        for bid in starts:
+            blocks[bid]["term"] = _retarget(blocks[bid]["term"], mapping)
 
 
 class Views:
@@ -271,6 +414,7 @@ class Views:
         if name in self.cache:
             return self.cache[name]
         f = copy.deepcopy(self.raw[name])
+        f["_name"] = name
         for b in f["blocks"]:
             b.setdefault("origin", None)
         if depth <= MAX_DEPTH and name not in stack and not f.get("def_exp"):
